@@ -132,7 +132,8 @@ def discharge(ctx, ob, timeout_ms=10000, use_cvc5=False):
         res["time"] = time.time() - t0
     if use_cvc5 and res["status"] == "proved" and res["backend"].startswith("z3"):
         # cross-check of an already discharged obligation by the second solver: informational, short budget
-        c = cvc5_check(s, min(timeout_ms, 10000))
+        # (an obligation z3 itself needed seconds for is not something cvc5 settles in a short budget: skipped)
+        c = cvc5_check(s, min(timeout_ms, 5000)) if res["time"] < 2.0 else "skipped(slow for z3)"
         res["cvc5"] = c
     return _finish(res, ob)
 
